@@ -199,6 +199,9 @@ class LetExpression(TypedExpression):
             and after_str.endswith("\n")
         ):
             after_str = after_str[:-1]
+        if after_str and not (isinstance(self.after[0], Comment) and self.after[0].inline):
+            # Own-line trailing comments start on a new line after the body.
+            after_str = "\n" + after_str
         let_line = ("" if inline else " " * indent) + "let"
         if self.after_let_comment is not None:
             let_line += f" {self.after_let_comment.rebuild(indent=0)}"
